@@ -1,6 +1,12 @@
 #!/bin/sh
-# Offline build of the framework: Lean library + driver, then the Rust harness against /repo.
-set -e
+# Offline build of the framework: Lean library + per-property drivers and theorem modules,
+# then the Rust harness binaries against /repo. A property whose own targets fail to build
+# is reported by its own check, so failures here do not stop the others.
 cd "$(dirname "$0")"
-(cd lean && lake build Retro drv)
-(cd harness && CARGO_NET_OFFLINE=true cargo build --release --offline)
+(cd lean && lake build Retro.Basic Retro.Audit Retro.Drv.Common) || exit 1
+for d in lean/Driver/C*.lean; do
+  p="$(basename "$d" .lean)"
+  (cd lean && lake build "Retro.Props.$p" "drv_$(echo "$p" | tr A-Z a-z)") || echo "setup: $p Lean targets failed"
+done
+(cd harness && CARGO_NET_OFFLINE=true cargo build --release --offline) || echo "setup: harness build failed"
+exit 0
